@@ -872,7 +872,36 @@ SCENARIOS = [(0.35, scenario_sorted_vector), (0.2, scenario_unsorted_vector), (0
              (0.1, scenario_lookup), (0.05, scenario_index)]
 
 
+def whole_column_lookups(ctx):
+    """a lookup array written as a whole column / row of a sheet whose data does not start at A1: positions count from
+    row 1 / column A (MATCH(30, Data!C:C, 0) is the row number of the cell)"""
+    from vp import wb as wbm
+    data = {'C4': 10, 'C5': 20, 'C6': 30, 'C7': 40, 'C8': 50, 'D4': 'ten', 'D5': 'twenty', 'D6': 'thirty',
+            'D7': 'forty', 'D8': 'fifty'}
+    wants = {'A1': ('=MATCH(30,Data!C:C,0)', 6), 'A2': ('=MATCH("thirty",Data!6:6,0)', 4),
+             'A3': ('=INDEX(Data!D:D,6)', 'thirty'), 'A4': ('=VLOOKUP(30,Data!C:D,2,FALSE)', 'thirty'),
+             'A5': ('=MATCH(35,Data!C:C,1)', 6), 'A6': ('=INDEX(Data!C:D,7,2)', 'forty'),
+             'A7': ('=MATCH(30,Data!C4:C8,0)', 3), 'A8': ('=HLOOKUP("D",Data!1:8,6,FALSE)', None)}
+    for order in ('unbounded-first', 'bounded-first'):
+        cells = {k: f for k, (f, _) in wants.items() if k != 'A8'}
+        spec = {'sheets': [['Sheet1', cells], ['Data', data]], 'names': {}, 'arrays': [], 'calc': None}
+        comp = wbm.compile_mem(spec)
+        keys = sorted(cells, reverse=(order == 'bounded-first'))
+        for k in keys:
+            f, want = wants[k]
+            got = wbm.outcome(comp.evaluate, f'Sheet1!{k}')
+            ctx.count('whole-column-lookup-cases')
+            ctx.case(('whole-column', order, f))
+            if got != ('v', want):
+                ctx.violation('whole-column-lookup/position-not-counted-from-the-first-row-or-column',
+                              f'{f} with the data in Data!C4:D8 gives {got!r}, expected {want!r} (evaluated '
+                              f'{order})', {'kind': 'whole-column'})
+                break
+
+
 def run(ctx):
+    if ctx.shard == 0:
+        whole_column_lookups(ctx)
     mini_space(ctx)
     index_sweep(ctx)
     directed_wildcards(ctx)
@@ -897,4 +926,7 @@ def run(ctx):
 
 
 def replay(ctx, case):
+    if case.get('kind') == 'whole-column':
+        whole_column_lookups(ctx)
+        return
     check_case(ctx, case)
